@@ -485,6 +485,7 @@ func wlDemux(seed int64) {
 	time.Sleep(5 * time.Millisecond)
 	// the shared connection stops accepting writes while replies are still produced: the per-key
 	// writer goroutines end on the error, the servers behind them keep writing into their channels
+	raceOkMsgs.Add(int64(len(shared.WrittenCopy()))) // replies the servers behind the demultiplexer put on the shared connection
 	shared.FailWrites(raceErr(seed))
 	shared.Deliver(&Rpc{}) // the all-default envelope
 	for k := 0; k < 6; k++ {
@@ -988,6 +989,13 @@ func TestC15Race(t *testing.T) {
 			}
 		}
 		stat := regexp.MustCompile(`(?m)^=== C15STAT (\d+) (\d+) (\d+)$`).FindStringSubmatch(sec)
+		traffic := 0 // successful calls + messages + envelopes through the code: a workload that does nothing proves nothing
+		if len(stat) == 4 {
+			var a, b int
+			fmt.Sscan(stat[1], &a)
+			fmt.Sscan(stat[2], &b)
+			traffic = a + b
+		}
 		ngoat := 0
 		for _, rep := range reports {
 			isGoat, top := classifyRaceReport(rep)
@@ -1008,7 +1016,7 @@ func TestC15Race(t *testing.T) {
 		em.Marker("begin", idx)
 		em.Emit(Rec{Idx: idx, Kind: "race-run", Desc: map[string]any{"workload": name, "procs": procs, "loops": loops},
 			Obs: map[string]any{"reports": len(reports), "goat_reports": ngoat, "ok_unary_okmsgs_errs": stat},
-			Coq: fmt.Sprintf("CRaceRun %s %s %d", wi, procs, ngoat), Tags: []string{"race-workload:" + name, "race-procs:" + procs}})
+			Coq: fmt.Sprintf("CRaceRun %s %s %d %d", wi, procs, ngoat, traffic), Tags: []string{"race-workload:" + name, "race-procs:" + procs}})
 		em.Marker("end", idx)
 		idx++
 	}
